@@ -245,8 +245,9 @@ open SigModel.Stats SigModel.MachInt
 
 /-- C04.1 `stats_fold_eq_spec`: for every list of values the folded statistics hold exactly the mathematical
 aggregates of the numeric values — count of events having the field, number of numeric values, their sum, least and
-greatest — provided the int64 running sum cannot wrap (the guard; the wrap branch is `stats_fold_int_sum_wraps`). -/
-theorem stats_fold_eq_spec (vs : List Val) (h : NoInt64Overflow vs) :
+greatest.  No guard: since patch c04-15 an integer sum that leaves int64 is continued as a float64 (for the code as found
+the statement needed `NoInt64Overflow`, see `stats_fold_int_sum_wraps_old` / `stats_fold_eq_spec_counterexample_old`). -/
+theorem stats_fold_eq_spec (vs : List Val) :
     match foldQ exact vs with
     | none => present vs = 0
     | some st =>
@@ -270,42 +271,49 @@ theorem stats_fold_eq_spec (vs : List Val) (h : NoInt64Overflow vs) :
         exact (numbers_nil_iff vs).mpr (List.isEmpty_iff.mp he)
       · simp only [he]
         refine ⟨(numbers_length vs).symm, ?_, ?_⟩
-        · rw [sumCell_eq_spec _ h, sumSpec_toRat, numbers_eq, total_ratVals]
+        · rw [sumCell_toRat, numbers_eq, total_ratVals]
         · intro hn; exact he (by rw [(numbers_nil_iff vs).mp hn]; rfl)
 
-/-- the overflow branch, characterised: as long as no float (or numeric string) has arrived the sum cell is ALWAYS the
-mathematical sum wrapped to int64 — for every list, no guard -/
-theorem stats_fold_int_sum_wraps (vs : List Val) (h : anyFlt (nums (parseFast exact) vs) = false)
-    (hne : nums (parseFast exact) vs ≠ []) :
-    ∃ st ns, foldQ exact vs = some st ∧ st.num = some ns ∧
-      ns.sum = .int (wrapS64 (intSum (nums (parseFast exact) vs))) := by
-  rw [foldQ_eq_build]
-  have h0 : present vs ≠ 0 := by
-    intro h0; exact hne (of_present_zero _ vs h0).1
-  rw [build_of_present_pos _ vs h0]
-  have he : (nums (parseFast exact) vs).isEmpty = false := by
-    cases hx : nums (parseFast exact) vs with
-    | nil => exact absurd hx hne
-    | cons a r => rfl
-  refine ⟨_, ⟨(nums (parseFast exact) vs).length, sumCell (nums (parseFast exact) vs)⟩, rfl, ?_, sumCell_of_ints _ h⟩
-  simp [he]
+/-- the code AS FOUND (`addSumOld` / `sumCellOld`, the running sum before patch c04-15): as long as no float (or numeric
+string) had arrived the sum cell was ALWAYS the mathematical sum wrapped to int64 — every list of numeric values -/
+theorem stats_fold_int_sum_wraps_old (ns : List Num) (h : anyFlt ns = false) :
+    sumCellOld ns = .int (wrapS64 (intSum ns)) :=
+  sumCellOld_of_ints ns h
 
-/-- … so without the guard C04.1 is false: 2^62 + 2^62 is reported as −2^63 -/
-theorem stats_fold_eq_spec_counterexample :
-    ¬ (∀ vs : List Val, ∀ st ns, foldQ exact vs = some st → st.num = some ns → ns.sum.toRat = total (numbers vs)) := by
-  intro hall
-  have h := hall [.int 4611686018427387904, .int 4611686018427387904]
-    ⟨true, 2, .int 4611686018427387904, .int 4611686018427387904, some ⟨2, .int (-9223372036854775808)⟩⟩
-    ⟨2, .int (-9223372036854775808)⟩ (by decide) rfl
-  simp [numbers, Val.number?, total, Num.toRat] at h
-  grind
+/-- … so 2^62 + 2^62 was reported as −2^63 (recorded as stats/int64-sum-overflow, repaired by patch c04-15: the sum cell
+of the fixed code holds 2^63 as a float64) -/
+theorem stats_fold_eq_spec_counterexample_old :
+    sumCellOld [.int 4611686018427387904, .int 4611686018427387904] = .int (-9223372036854775808) ∧
+    (sumCellOld [.int 4611686018427387904, .int 4611686018427387904]).toRat
+      ≠ ratSum [.int 4611686018427387904, .int 4611686018427387904] ∧
+    (sumCell [.int 4611686018427387904, .int 4611686018427387904]).toRat
+      = ratSum [.int 4611686018427387904, .int 4611686018427387904] := by
+  have e : sumCellOld [.int 4611686018427387904, .int 4611686018427387904] = .int (-9223372036854775808) := by decide
+  refine ⟨e, ?_, sumCell_toRat _⟩
+  rw [e]; simp [ratSum, Num.toRat, Rat.add_zero]; grind
+
+/-- range (getRange as fixed by patch c04-15): for int64 max ≥ min the answer is max − min as a number, an int64 when it
+fits and the float64 otherwise; before, 2^62 − (−2^62) was answered −2^63 (stats/int64-range-overflow) -/
+theorem range_eq_max_minus_min (a b : Int) (hab : b ≤ a)
+    (ha : a ≤ 9223372036854775807) (hb : -9223372036854775808 ≤ b) :
+    ∃ c, rangeOf exact (.int a) (.int b) = some c ∧ c.rat? = some ((a : Rat) - (b : Rat)) := by
+  unfold rangeOf
+  by_cases hd : wrapS64 (a - b) < 0
+  · exact ⟨.flt ((a : Rat) - (b : Rat)), by simp [hd], by simp [CV.rat?]⟩
+  · have hw : wrapS64 (a - b) = a - b := by unfold wrapS64 at *; omega
+    have hd' : ¬ (a - b < 0) := by omega
+    exact ⟨.int (a - b), by simp [hw, hd'], by simp [CV.rat?, Rat.intCast_sub]⟩
+
+theorem range_old_counterexample :
+    rangeOfOld exact (.int 4611686018427387904) (.int (-4611686018427387904)) = some (.int (-9223372036854775808)) := by
+  decide
 
 example : NoInt64Overflow [.int 5, .absent, .flt 3, .str [49, 50], .str [97]] := by decide
 
 /-- C04.3a `avg_eq_sum_div_numeric_count` (no group-by path: GetSegAvg → getAverage(Sum, NumericCount)): the average
 answered is the mathematical sum of the numeric values divided by THEIR number — events lacking the field and text
 values do not enter the denominator; without a numeric value there is no answer. -/
-theorem avg_eq_sum_div_numeric_count (vs : List Val) (h : NoInt64Overflow vs) :
+theorem avg_eq_sum_div_numeric_count (vs : List Val) :
     (derive exact (foldQ exact vs)).avg =
       if numbers vs = [] then none else some (.flt (total (numbers vs) / ((numbers vs).length : Rat))) := by
   rw [foldQ_eq_build]
@@ -321,7 +329,7 @@ theorem avg_eq_sum_div_numeric_count (vs : List Val) (h : NoInt64Overflow vs) :
       have hlen : (nums (parseFast exact) vs).length ≠ 0 := by
         intro hl; exact he (by rw [List.length_eq_zero_iff.mp hl]; rfl)
       have hs : (sumCell (nums (parseFast exact) vs)).toRat = total (numbers vs) := by
-        rw [sumCell_eq_spec _ h, sumSpec_toRat, numbers_eq, total_ratVals]
+        rw [sumCell_toRat, numbers_eq, total_ratVals]
       have hnn : nums (parseFast exact) vs ≠ [] := fun hx => hlen (by rw [hx]; rfl)
       simp only [derive, he, hne, if_false, Bool.not_false, if_true, Option.bind, Option.map, avgOf]
       rw [← hs, numbers_length]
@@ -334,12 +342,28 @@ theorem count_eq_present (vs : List Val) :
   by_cases h0 : present vs = 0 <;> simp [build, h0, derive]
 
 /-- C04.2 `merge_hom`: the statistics of a concatenation are the merge of the statistics of its two halves, for every
-split of every list — provided only that the int64 sum cannot wrap.  (`SegStats.Merge` as FIXED by patch c04-1; for the
-code as found the statement was false: `merge_hom_old_counterexample`.) -/
-theorem merge_hom (xs ys : List Val) (hov : NoInt64Overflow (xs ++ ys)) :
+split of every list, NO guard (patches c04-1 and c04-15).  `oview` reads the sum cell as the number it denotes: a sum
+that left int64 on one way of computing it and not on the other is the float64 4.611686018427388e18 here and the int64
+4611686018427387904 there — the same number; everything else (IsNumeric, counts, min, max) is equal as it stands.
+(`merge_hom_exact`: while no int64 sum can leave its range the two sides are identical, cell types included.) -/
+theorem merge_hom (xs ys : List Val) :
+    oview (mergeO exact (foldQ exact xs) (foldQ exact ys)) = oview (foldQ exact (xs ++ ys)) := by
+  rw [foldQ_eq_build, foldQ_eq_build, foldQ_eq_build]
+  exact mergeO_build_view _ xs ys
+
+theorem merge_hom_exact (xs ys : List Val) (hov : NoInt64Overflow (xs ++ ys)) :
     mergeO exact (foldQ exact xs) (foldQ exact ys) = foldQ exact (xs ++ ys) := by
   rw [foldQ_eq_build, foldQ_eq_build, foldQ_eq_build]
   exact mergeO_build _ xs ys hov
+
+/-- why `oview`: the TYPE of the sum cell may depend on the split once a partial sum leaves int64 — the value does not -/
+theorem merge_cell_type_example :
+    (foldQ exact [.int 4611686018427387904, .int 4611686018427387904, .int (-4611686018427387904)]).map
+        (fun s => s.num.map (fun n => n.sum.isFlt)) = some (some true) ∧
+    (mergeO exact (foldQ exact [.int 4611686018427387904])
+        (foldQ exact [.int 4611686018427387904, .int (-4611686018427387904)])).map
+        (fun s => s.num.map (fun n => n.sum.isFlt)) = some (some false) := by
+  constructor <;> decide
 
 /-- the code AS FOUND (`mergeOOld`): `SegStats.Merge` kept the IsNumeric flag of its receiver, so a first part holding
 only text made the merged statistics non-numeric although the second part has the number 5; GetSegSum / GetSegAvg
@@ -363,32 +387,29 @@ theorem merge_old_loses_sum_example :
     (derive exact (foldQ exact [.str [97], .int 5])).sum = some (.int 5) := by
   refine ⟨?_, ?_, ?_⟩ <;> decide
 
-/-- merge is commutative on reachable statistics -/
-theorem merge_comm (xs ys : List Val) (hov : NoInt64Overflow (xs ++ ys)) :
-    mergeO exact (foldQ exact xs) (foldQ exact ys) = mergeO exact (foldQ exact ys) (foldQ exact xs) := by
-  rw [merge_hom xs ys hov, merge_hom ys xs hov.swap, foldQ_eq_build, foldQ_eq_build]
-  exact build_comm _ xs ys hov
+/-- merge is commutative on reachable statistics (no guard) -/
+theorem merge_comm (xs ys : List Val) :
+    oview (mergeO exact (foldQ exact xs) (foldQ exact ys)) = oview (mergeO exact (foldQ exact ys) (foldQ exact xs)) := by
+  rw [merge_hom xs ys, merge_hom ys xs, foldQ_eq_build, foldQ_eq_build]
+  exact build_comm_view _ xs ys
 
-/-- merge is associative on reachable statistics -/
-theorem merge_assoc (xs ys zs : List Val) (hov : NoInt64Overflow (xs ++ ys ++ zs)) :
-    mergeO exact (mergeO exact (foldQ exact xs) (foldQ exact ys)) (foldQ exact zs) =
-      mergeO exact (foldQ exact xs) (mergeO exact (foldQ exact ys) (foldQ exact zs)) := by
-  have hov' : NoInt64Overflow (xs ++ (ys ++ zs)) := by rw [← List.append_assoc]; exact hov
-  rw [merge_hom xs ys hov.left, merge_hom (xs ++ ys) zs hov, merge_hom ys zs hov'.right, merge_hom xs (ys ++ zs) hov',
-    List.append_assoc]
+/-- merge is associative on reachable statistics (no guard) -/
+theorem merge_assoc (xs ys zs : List Val) :
+    oview (mergeO exact (mergeO exact (foldQ exact xs) (foldQ exact ys)) (foldQ exact zs)) =
+      oview (mergeO exact (foldQ exact xs) (mergeO exact (foldQ exact ys) (foldQ exact zs))) := by
+  rw [mergeO_view_congr _ _ _ _ (merge_hom xs ys) rfl, merge_hom (xs ++ ys) zs,
+    mergeO_view_congr _ _ _ _ rfl (merge_hom ys zs), merge_hom xs (ys ++ zs), List.append_assoc]
 
 /-- any segmentation: merging the statistics of the parts of ANY split of the events, batch after batch, gives the
 statistics of the unsplit list (with `merge_comm` / `merge_assoc`: in any order and association, i.e. for any
-parallel schedule) -/
-theorem merge_segmentation (ps : List (List Val)) (hov : NoInt64Overflow ps.flatten) :
-    mergeAll ps = foldQ exact ps.flatten := by
+parallel schedule) — no guard -/
+theorem merge_segmentation (ps : List (List Val)) : oview (mergeAll ps) = oview (foldQ exact ps.flatten) := by
   induction ps using snocInd with
   | nil => rfl
   | append_singleton ps p ih =>
     have hfl : (ps ++ [p]).flatten = ps.flatten ++ p := by simp
-    rw [hfl] at hov ⊢
-    rw [mergeAll_snoc, ih hov.left]
-    exact merge_hom _ _ hov
+    rw [hfl, mergeAll_snoc, mergeO_view_congr _ _ _ _ ih rfl]
+    exact merge_hom _ _
 
 /-- C04.4 `ingest_stats_eq_query_stats`: the ingest-time adders (what the .sst fast path and unrotated segments serve)
 and the query-time adders leave the SAME statistics on the same values, for EVERY list — numeric strings included.
@@ -432,24 +453,20 @@ patches c04-7, c04-11 and c04-13: for every list of records the bucket's Sum cel
 that are numbers — int, float and, like in the statistics without a by clause, strings that FastParseFloat reads as
 numbers — the average it answers is that sum divided by the number of records that HAVE such a value (events lacking x and
 text values do not enter the denominator), and count(x) is the number of records that have a value for x. -/
-theorem rb_avg_eq_sum_div_numeric_count (vs : List Val) (h : absIntSum (nums (parseFast exact) vs) < 9223372036854775808)
-    (hne : nums (parseFast exact) vs ≠ []) :
+theorem rb_avg_eq_sum_div_numeric_count (vs : List Val) (hne : nums (parseFast exact) vs ≠ []) :
     ∃ b, foldRB exact vs = some b ∧
       (resultRB exact b).avg = .flt (ratSum (nums (parseFast exact) vs) / ((nums (parseFast exact) vs).length : Rat)) ∧
       (resultRB exact b).count = present vs := by
-  rcases foldRB_sum vs h with ⟨hnil, _⟩ | ⟨b, hb, hn, hvne, hs, hc, hx⟩
+  rcases foldRBWith_val (parseFast exact) vs with ⟨hnil, _⟩ | ⟨b, hb, hn, hvne, hs, hc, hx⟩
   · subst hnil; exact absurd rfl hne
   · refine ⟨b, hb, ?_, by simp [resultRB, hx]⟩
-    have he : (nums (parseFast exact) vs).isEmpty = false := by
-      cases hx : nums (parseFast exact) vs with
-      | nil => exact absurd hx hne
-      | cons a r => rfl
     have hlen : (nums (parseFast exact) vs).length ≠ 0 := by
       intro hl; exact hne (List.length_eq_zero_iff.mp hl)
-    have hs' : b.sum = (sumSpec (nums (parseFast exact) vs)).toCV := by rw [hs]; simp [rbSum, he]
-    have hr := sumSpec_toRat (nums (parseFast exact) vs)
-    simp only [resultRB, hs', hc]
-    cases hsp : sumSpec (nums (parseFast exact) vs) <;> simp [hsp, Num.toCV, CV.float?, Num.toRat, hlen] at hr ⊢ <;> rw [hr]
+    rcases hs with ⟨hnil, _⟩ | ⟨_, hr⟩
+    · exact absurd hnil hne
+    · have hf : b.sum.float? exact = some (ratSum (nums (parseFast exact) vs)) := by
+        rw [← hr]; cases b.sum <;> rfl
+      simp [resultRB, hf, hc, hlen]
 
 /-- C04.3c `rb_count_eq_present` (patch c04-11), full strength — no guard at all: count(x) of a group is the number of its
 records that have a value for x (a number, numeric text or text), whatever the values are; same number as the statistics
@@ -476,22 +493,18 @@ theorem rb_count_eq_present (vs : List Val) (hne : vs ≠ []) :
 
 /-- the code AS FOUND (`resultRBOld`): the average was the sum divided by the number of RECORDS of the group
 (blockresult.go `sumRawVal / float64(bucket.count)`), exact characterisation … -/
-theorem rb_avg_old_divides_by_record_count (vs : List Val) (h : absIntSum (nums (parseFast exact) vs) < 9223372036854775808)
-    (hne : nums (parseFast exact) vs ≠ []) :
+theorem rb_avg_old_divides_by_record_count (vs : List Val) (hne : nums (parseFast exact) vs ≠ []) :
     ∃ b, foldRB exact vs = some b ∧
       (resultRBOld exact b).avg = .flt (ratSum (nums (parseFast exact) vs) / (vs.length : Rat)) := by
-  rcases foldRB_sum vs h with ⟨hnil, _⟩ | ⟨b, hb, hn, hvne, hs, _, _⟩
+  rcases foldRBWith_val (parseFast exact) vs with ⟨hnil, _⟩ | ⟨b, hb, hn, hvne, hs, _, _⟩
   · subst hnil; exact absurd rfl hne
   · refine ⟨b, hb, ?_⟩
-    have he : (nums (parseFast exact) vs).isEmpty = false := by
-      cases hx : nums (parseFast exact) vs with
-      | nil => exact absurd hx hne
-      | cons a r => rfl
     have hlen : vs.length ≠ 0 := by intro hl; exact hvne (List.length_eq_zero_iff.mp hl)
-    have hs' : b.sum = (sumSpec (nums (parseFast exact) vs)).toCV := by rw [hs]; simp [rbSum, he]
-    have hr := sumSpec_toRat (nums (parseFast exact) vs)
-    simp only [resultRBOld, hs', hn]
-    cases hsp : sumSpec (nums (parseFast exact) vs) <;> simp [hsp, Num.toCV, CV.float?, Num.toRat, hlen] at hr ⊢ <;> rw [hr]
+    rcases hs with ⟨hnil, _⟩ | ⟨_, hr⟩
+    · exact absurd hnil hne
+    · have hf : b.sum.float? exact = some (ratSum (nums (parseFast exact) vs)) := by
+        rw [← hr]; cases b.sum <;> rfl
+      simp [resultRBOld, hf, hn, hlen]
 
 /-- … so over the two events `x = 5` and `x absent` it answered 5/2, the fixed code answers 5; count(x) was 2 — the records
 of the group (`resultRBCountOld`) — and is 1 since patch c04-11 (recorded as stats/groupby-avg-count/record-count; the avg
@@ -501,8 +514,8 @@ theorem rb_avg_old_counterexample :
       (resultRB exact b).avg = .flt 5 ∧ (resultRB exact b).count = 1 ∧ (resultRBCountOld exact b).count = 2 ∧
       (5 : Rat) / 2 ≠ total (numbers [.int 5, .absent]) / ((numbers [.int 5, .absent]).length : Rat) := by
   have e1 : nums (parseFast exact) [.int 5, .absent] = [.int 5] := rfl
-  obtain ⟨b, hb, ha⟩ := rb_avg_old_divides_by_record_count [.int 5, .absent] (by rw [e1]; decide) (by rw [e1]; simp)
-  obtain ⟨b', hb', ha', hc'⟩ := rb_avg_eq_sum_div_numeric_count [.int 5, .absent] (by rw [e1]; decide) (by rw [e1]; simp)
+  obtain ⟨b, hb, ha⟩ := rb_avg_old_divides_by_record_count [.int 5, .absent] (by rw [e1]; simp)
+  obtain ⟨b', hb', ha', hc'⟩ := rb_avg_eq_sum_div_numeric_count [.int 5, .absent] (by rw [e1]; simp)
   obtain ⟨b'', hb'', _, hn''⟩ := rb_count_eq_present [.int 5, .absent] (by simp)
   have hbb : b' = b := by rw [hb] at hb'; exact (Option.some.inj hb').symm
   have hbb2 : b'' = b := by rw [hb] at hb''; exact (Option.some.inj hb'').symm
@@ -545,9 +558,31 @@ theorem rb_numeric_string_old_counterexample :
   · simp [foldRB, foldRBWith, stepRBWith, Val.toCVWith, hp, newRB, CV.isNumeric]
 
 /-- merge of group-by buckets (`MergeRunningBuckets`, what joins the per-segment / per-batch buckets of one group): the
-record count, the Sum cell, its numeric count and the Count cell of the merged bucket are those of the unsplit list, for
-every split of every list — so sum, count(x) and average of a group do not depend on the segmentation -/
-theorem rb_merge_hom_count_sum (xs ys : List Val) (h : absIntSum (nums (parseFast exact) (xs ++ ys)) < 9223372036854775808) :
+record count, the Sum cell read as a number, its numeric count and the Count cell of the merged bucket are those of the
+unsplit list, for every split of every list, no guard (patch c04-15: an int64 sum that leaves its range becomes a float64,
+so only the TYPE of the Sum cell may depend on the split) — sum, count(x) and average of a group do not depend on the
+segmentation -/
+theorem rb_merge_hom_count_sum (xs ys : List Val) :
+    (mergeRB exact (foldRB exact xs) (foldRB exact ys)).map (fun b => (b.n, b.sum.rat?, b.nc, b.cx)) =
+      (foldRB exact (xs ++ ys)).map (fun b => (b.n, b.sum.rat?, b.nc, b.cx)) := by
+  rcases mergeRBWith_val (parseFast exact) xs ys with ⟨hnil, hm⟩ | ⟨m, w, hm, hw, h1, h2, h3, hs1, hs2⟩
+  · have : foldRB exact (xs ++ ys) = none := by rw [hnil]; rfl
+    unfold foldRB at *
+    rw [hm, this]
+  · unfold foldRB at *
+    rw [hm, hw]
+    have hsum : m.sum.rat? = w.sum.rat? := by
+      rcases hs1 with ⟨hn1, e1⟩ | ⟨hne, e1⟩
+      · rcases hs2 with ⟨_, e2⟩ | ⟨hne2, _⟩
+        · rw [e1, e2]
+        · exact absurd hn1 hne2
+      · rcases hs2 with ⟨hn2, _⟩ | ⟨_, e2⟩
+        · exact absurd hn2 hne
+        · rw [e1, e2]
+    simp [h1, h2, h3, hsum]
+
+/-- … identical, cell types included, while no int64 sum can leave its range -/
+theorem rb_merge_hom_count_sum_exact (xs ys : List Val) (h : absIntSum (nums (parseFast exact) (xs ++ ys)) < 9223372036854775808) :
     (mergeRB exact (foldRB exact xs) (foldRB exact ys)).map (fun b => (b.n, b.sum, b.nc, b.cx)) =
       (foldRB exact (xs ++ ys)).map (fun b => (b.n, b.sum, b.nc, b.cx)) :=
   mergeRB_n_sum xs ys h
